@@ -91,7 +91,10 @@ fn binary(p: &Params) {
         }
     }
     // the decision threshold is configurable: the predicted class must follow it
-    for &t in &[0.25f64, 0.75, 0.1, 0.9] {
+    // (also thresholds that coincide with a published probability, and the two ends of the range)
+    let mut thresholds = vec![0.25f64, 0.75, 0.1, 0.9, 0.0, 1.0];
+    thresholds.extend(probs.iter().cloned());
+    for &t in &thresholds {
         let mt = m.clone().set_threshold(t);
         let pr: Array1<SymLabel> = mt.predict(&x);
         for i in 0..n {
